@@ -382,7 +382,9 @@ def run(ck):
     # ---- the cube-root helpers (double overload, generic pow-based template, float and long double overloads):
     # r = cbrt(x) must have the sign of x and r^3 = x up to the accuracy of the type (exact rational test)
     xs_c = [0.0, 1.0, -1.0, 8.0, -27.0, 1e-300, -1e300, 2.0, -0.001]
-    xs_c += [rng.uniform(-10, 10) * 10.0 ** rng.randint(-30, 30) for _ in range(200)]
+    rng_c = random.Random(7 * ck.seed + 3)          # own stream: the cubics of a seed do not depend on this part
+    xs_c += [rng_c.uniform(-10, 10) * 10.0 ** rng_c.randint(-30, 30) for _ in range(200)]
+    seen_c = set()
     pcb = ck.run([harness], input="".join("cbrt %s\n" % bits(x) for x in xs_c))
     cb = pcb.stdout.splitlines()
     names_c = [("cbrt(double)", Fr(1, 10 ** 14), False), ("cbrt<T> generic template (pow)", Fr(1, 10 ** 13), False),
@@ -401,7 +403,8 @@ def run(ck):
             cbrt_checked += 1
             good = (r == r and abs(r) != float("inf") and (r > 0) == (xr > 0) and (r < 0) == (xr < 0)
                     and abs(Fr(r) ** 3 - Fr(xr)) <= tol * abs(Fr(xr)))
-            if not good:
+            if not good and nm not in seen_c:
+                seen_c.add(nm)
                 ck.violation(SITE + ":cbrt:" + nm, "CubicRoots::%s: cbrt(%r) = %r, whose cube is %r" % (nm, xr, r, r ** 3 if r == r else r),
                              {"function": nm, "x": xr, "returned": r, "answer_line": a}, True)
     # ---- cases: corpus, directed, then seeded random per class
